@@ -168,7 +168,7 @@ func sameTermination(n, w core.RunResult) (bool, string) {
 
 func checkC02(c *Ctx) error {
 	r := c.R
-	r.Rule = "programs accepted by both targets: (a) generated integer/struct/array/enum/loop programs of the C01 generator restricted to what the wasm back end supports (no closures, results, strings), (b) generated f32/f64 arithmetic programs (casts, comparisons, calls, branches), (c) pinned probes; each compiled by the real compiler for native and for wasm and both artifacts executed; non-trivial = a distinct program accepted by both targets whose outputs (>=1 line) and termination agreed"
+	r.Rule = "programs accepted by both targets: (a) generated integer/struct/array/enum/loop programs of the C01 generator restricted to what the wasm back end supports (no closures, results, strings), (b) generated f32/f64 arithmetic programs (casts, comparisons, calls, branches), (c) pinned probes and the deterministic matrix programs, (d) composite-value programs (structs, nested structs, fixed arrays of small structs: leaf writes, copies, whole-aggregate assignments, by-value calls); each compiled by the real compiler for native and for wasm and both artifacts executed; non-trivial = a distinct program accepted by both targets whose outputs (>=1 line) and termination agreed"
 	r.Assumptions = []string{"float lines are compared numerically: relative 1e-12 for f64, 1e-5 for values printed from f32 (native prints %g, JS prints shortest round-trip)", "programs rejected by either target are 'not in scope' and only counted", "native panic (abort) corresponds to a JS Error or a wasm trap"}
 	nInt := c.N(40, 900)
 	nFlt := c.N(20, 400)
@@ -187,6 +187,14 @@ func checkC02(c *Ctx) error {
 	for i := 0; i < nFlt; i++ {
 		src, tol := floatProgram(core.CaseRng(c.Env.Seed, "C02-float", i))
 		jobs = append(jobs, job{id: fmt.Sprintf("gen:%d:float:%d", c.Env.Seed, i), src: src, tol: tol})
+	}
+	// (d) composite-value programs (C18's generator, wasm profile): sentinel-filled structs, nested
+	// structs and fixed arrays (incl. arrays of 2-7 byte structs) with leaf writes, copies,
+	// whole-aggregate assignments and by-value calls — pointer size 8 against pointer size 4
+	nAgg := c.N(16, 300)
+	for i := 0; i < nAgg; i++ {
+		src, _ := c18Program(core.CaseRng(c.Env.Seed, "C02-composite", i), true)
+		jobs = append(jobs, job{id: fmt.Sprintf("gen:%d:composite:%d", c.Env.Seed, i), src: src})
 	}
 	pins := []job{
 		{id: "probe:ref-read-arith", src: "import \"std/io\";\n\nfn rd(r: &i32) -> i32 {\n    return r + 1;\n}\n\nfn main() {\n    let x: i32 = 1;\n    let y := rd(&x);\n    io::Println(y);\n}\n"},
